@@ -741,6 +741,8 @@ class C08Executor(readfile.ReadFileExecutor):
 
     def get_attr(self, st, base, attr, node):
         from pyvc.values import VMod
+        if self._contracted_method(st, base, attr) is not None:
+            return [(st, VFunc("bound", base, attr))]      # an instance whose fields were havocked is still an instance of its class
         if attr in ("__name__", "__qualname__") and isinstance(base, VFunc):
             if base.how == "repo":
                 return [(st, VStr(base.b if attr == "__qualname__" else base.b.split(".")[-1]))]
@@ -758,7 +760,17 @@ class C08Executor(readfile.ReadFileExecutor):
             return [(st, VFunc("bound", base, attr))]        # see call_method: close() assumed total
         return super().get_attr(st, base, attr, node)
 
+    def _contracted_method(self, st, obj, name):
+        if hasattr(obj, "ref") and obj.ref in st.heap:
+            o = st.obj(obj.ref)
+            if o.kind == "unk" and o.cls:
+                return self.reg.get(f"{self.module.rel}::{o.cls}.{name}")
+        return None
+
     def call_method(self, st, obj, name, args, kwargs, node):
+        cm = self._contracted_method(st, obj, name)
+        if cm is not None and not cm.inline:
+            return self.apply_contract(st, cm, [obj] + list(args), kwargs, node)
         if isinstance(obj, VModDict) and name == "update" and len(args) == 1 and not kwargs:
             a = args[0]
             items = st.obj(a.ref).data if hasattr(a, "ref") and st.obj(a.ref).kind == "dict" else (a.items if hasattr(a, "items") and isinstance(getattr(a, "items"), dict) else None)
@@ -1436,6 +1448,57 @@ def n_yields(c):
     return c.st.ghost.get("n_yields", 0) + (1 if c.st.ghost.get("yield_count_unknown") else 0)
 
 
+# ---- the encryption signal of the 7z reader travels up the call chain unchanged --------------------------------------------
+def _signal(ex):
+    name, dedicated = aes_signal(ex.module.repo)
+    return name if dedicated and ex.uni.known(name) else None
+
+
+def _verifying(c):
+    """True while the clause is evaluated on the body of the function under contract (False: assumed at a call site)."""
+    ec = getattr(c.ex, "entry_ctx", None)
+    return ec is not None and c.args is ec.args
+
+
+def signal_raises(extra_when=None):
+    """Two raise clauses for a function of the chain, as seen by its callers: (1) the dedicated encryption signal,
+    (2) anything else.  Which of the two produced an exception is recorded in ghost state (`signal_from_callee`)."""
+    def w_signal(c):
+        if _verifying(c):
+            return z3.BoolVal(True)            # (on the body: which class may escape is the business of exc_ensures)
+        if _signal(c.ex) is None:
+            return z3.BoolVal(False)
+        c.st.ghost["signal_from_callee"] = True
+        c.st.ghost["last_raise_is_signal"] = True
+        return extra_when(c) if extra_when is not None else z3.BoolVal(True)
+
+    def w_other(c):
+        if not _verifying(c):
+            c.st.ghost["last_raise_is_signal"] = False
+        return z3.BoolVal(True)
+    sig = aes_signal()[0]
+    return [Raises(sig, sub=True, when=w_signal, label="the encryption signal of the decoder"), Raises("Exception", sub=True, when=w_other)]
+
+
+def signal_exc_ensures():
+    def preserved(c):
+        sg = _signal(c.ex)
+        if sg is None:
+            return z3.BoolVal(True)
+        is_sig = c.ex.uni.subclass_term(c.exc.tidx, sg)
+        if not _verifying(c):       # at a call site: the exception is the signal exactly when raise clause (1) produced it
+            return is_sig == z3.BoolVal(bool(c.st.ghost.get("last_raise_is_signal")))
+        c.note = "an encryption signal raised further down (AES coder) leaves this function as a different exception class"
+        return z3.Implies(z3.BoolVal(bool(c.st.ghost.get("signal_from_callee"))), is_sig)
+
+    def only_from_decoder(c):
+        sg = _signal(c.ex)
+        if sg is None or not _verifying(c) or "site" in c.exc.attrs:
+            return z3.BoolVal(True)
+        return z3.Implies(c.ex.uni.subclass_term(c.exc.tidx, sg), z3.BoolVal(bool(c.st.ghost.get("signal_from_callee")) or bool(c.exc.attrs.get("aes_branch"))))
+    return [("encryption-signal-of-the-decoder-is-passed-on-unchanged", preserved), ("encryption-signal-only-from-the-decoder", only_from_decoder)]
+
+
 def archive_contracts(reg):
     out = []
     AP = [("file_like", p_ext("BytesIO")), ("archive_path", p_opt(p_str()))]
@@ -1568,13 +1631,14 @@ def archive_contracts(reg):
     out.append(FnContract(
         target=f"{SEVEN}::SevenZipReader._apply_decoder",
         params=[("self", p_unk()), ("coder_id", p_ext("CoderId")), ("properties", p_unk()), ("data", p_unk()), ("unpack_sizes", p_unk())],
-        ensures=[("data-returned-only-for-non-aes-coders", lambda c: z3.Not(is_aes(c.args["coder_id"].t)))],
-        raises=[Raises("Exception", sub=True)],
-        exc_ensures=[("aes-coder-raises-Bad7zFile-itself", lambda c: z3.Implies(is_aes(c.args["coder_id"].t), z3.And(
-            z3.BoolVal(own(c)), c.ex.uni.subclass_term(c.exc.tidx, "Bad7zFile")))),
+        ensures=[("data-returned-only-for-non-aes-coders", lambda c: z3.Not(is_aes(c.args["coder_id"].t)) if isinstance(c.args["coder_id"], VExt) else z3.BoolVal(True))],
+        raises=signal_raises(lambda c: is_aes(c.args["coder_id"].t) if isinstance(c.args["coder_id"], VExt) else z3.BoolVal(True)),
+        exc_ensures=[("raised-class-as-announced-to-callers", lambda c: signal_exc_ensures()[0][1](c) if not _verifying(c) else z3.BoolVal(True)),
+                     ("aes-coder-raises-Bad7zFile-itself", lambda c: z3.Implies(is_aes(c.args["coder_id"].t), z3.And(
+            z3.BoolVal(own(c)), c.ex.uni.subclass_term(c.exc.tidx, "Bad7zFile"))) if _verifying(c) else z3.BoolVal(True)),
                      ("dedicated-encryption-signal-only-for-aes-coders", lambda c: z3.Implies(
                          z3.And(z3.BoolVal(own(c) and aes_signal(c.ex.module.repo)[1]), c.ex.uni.subclass_term(c.exc.tidx, aes_signal(c.ex.module.repo)[0])
-                                if c.ex.uni.known(aes_signal(c.ex.module.repo)[0]) else z3.BoolVal(False)), is_aes(c.args["coder_id"].t)))],
+                                if c.ex.uni.known(aes_signal(c.ex.module.repo)[0]) else z3.BoolVal(False)), is_aes(c.args["coder_id"].t)) if _verifying(c) else z3.BoolVal(True))],
         note="an AES coder is never decoded / passed through: Bad7zFile"))
     EXECUTOR_KW[f"{SEVEN}::SevenZipReader._apply_decoder"] = {"abstract": True, "inline_calls": False, "inline_local": True}
 
@@ -1620,13 +1684,39 @@ def archive_contracts(reg):
         target=t,
         params=[("self", p_obj("SevenZipReader", {"_archive_file": p_unk()})), ("folder", p_ext("Folder")), ("pack_pos", p_unk()),
                 ("pack_sizes", p_unk()), ("source_file", p_unk())],
-        requires=lambda c: NCOD(c.args["folder"].t) >= 0, modifies=("self",),
-        ensures=[("decoded-data-only-if-no-coder-of-the-folder-is-aes", lambda c: z3.Not(folder_has_aes(c.args["folder"].t)))],
-        raises=[Raises("Exception", sub=True)],
-        exc_ensures=[("encryption-signal-only-if-some-coder-is-aes", dec_signal_only_aes)],
+        requires=lambda c: NCOD(c.args["folder"].t) >= 0 if isinstance(c.args["folder"], VExt) else z3.BoolVal(True), modifies=("self",),
+        ensures=[("decoded-data-only-if-no-coder-of-the-folder-is-aes",
+                  lambda c: z3.Not(folder_has_aes(c.args["folder"].t)) if isinstance(c.args["folder"], VExt) else z3.BoolVal(True))],
+        raises=signal_raises(lambda c: folder_has_aes(c.args["folder"].t) if isinstance(c.args["folder"], VExt) else z3.BoolVal(True)),
+        exc_ensures=[("encryption-signal-only-if-some-coder-is-aes", lambda c: dec_signal_only_aes(c) if _verifying(c) else z3.BoolVal(True))] + signal_exc_ensures(),
         loops={},
         note="every coder of the chain goes through _apply_decoder (contract: an AES coder never returns data)"))
     EXECUTOR_KW[t] = {"abstract": True, "inline_calls": False, "inline_local": True}
+
+    # the way up: _parse_encoded_header -> _parse_end_header -> _parse_header -> SevenZipReader.__init__ -> SevenZipFile.__enter__
+    # (an AES-coded *header* is met while the reader is being constructed).  Each link passes the decoder's encryption signal
+    # on unchanged -- this is what the extractor's `except <signal>` relies on (model `with_7z`).
+    READER_SELF = p_obj("SevenZipReader", {"_archive_file": p_unk(), "_stream": p_unk(), "_header_offset": p_unk()})
+    chain = [("SevenZipReader._parse_encoded_header", [("self", READER_SELF)]),
+             ("SevenZipReader._parse_end_header", [("self", READER_SELF)]),
+             ("SevenZipReader._parse_header", [("self", READER_SELF)]),
+             ("SevenZipReader.__init__", [("self", p_obj("SevenZipReader", {})), ("file", p_unk())]),
+             ("SevenZipFile.__enter__", [("self", p_obj("SevenZipFile", {"_file": p_unk(), "_password": p_unk(), "_reader": p_unk()}))])]
+    chain_contracts = {}
+    for q, params in chain:
+        t = f"{SEVEN}::{q}"
+        cc = FnContract(target=t, params=params, modifies=("self",), raises=signal_raises(), exc_ensures=signal_exc_ensures(),
+                        result_maker=lambda ex, st, ctx: VUnk("result"),
+                        note="passes the decoder's encryption signal on unchanged (and raises it for no other reason)")
+        EXECUTOR_KW[t] = {"abstract": True, "inline_calls": False, "inline_local": True}
+        chain_contracts[q] = cc
+        out.append(cc)
+
+    def new_reader(ex, st, args, kwargs, node):
+        """SevenZipReader(file): runs __init__ -- by its contract"""
+        obj = ex.new_obj(st, "SevenZipReader", {})
+        return [(s_, obj) for (s_, _v) in ex.apply_contract(st, chain_contracts["SevenZipReader.__init__"], [obj] + list(args), kwargs, node)]
+    reg.ext_models[("new", "SevenZipReader")] = new_reader
     return out
 
 
